@@ -220,9 +220,45 @@ func cmdCheck(args []string) int {
 		}
 		claimRe = append(claimRe, re)
 	}
+	// what a claimed obligation of a function rests on is claimed with it: the loop invariants it
+	// assumes, the preconditions of the callees whose postconditions it uses, the lock and channel
+	// invariants it assumes at Lock / receive
+	supporting := map[string]bool{"inv-establish": true, "inv-preserve": true, "pre": true, "lockinv": true, "chaninv": true, "dispatch": true}
+	funcOf := func(name string) string {
+		if i := strings.Index(name, "/"); i >= 0 {
+			return name[:i]
+		}
+		return name
+	}
+	claimedFuncs := map[string]bool{}
+	if len(claimRe) > 0 {
+		for _, ob := range all {
+			if ob.Kind == "cover" {
+				continue
+			}
+			kindOK := len(plan.Kinds) == 0
+			for _, k := range plan.Kinds {
+				if k == ob.Kind {
+					kindOK = true
+				}
+			}
+			if !kindOK {
+				continue
+			}
+			for _, re := range claimRe {
+				if re.MatchString(ob.Name) {
+					claimedFuncs[funcOf(ob.Name)] = true
+				}
+			}
+		}
+	}
 	if len(plan.Kinds) > 0 || len(claimRe) > 0 {
 		var kept []*vc.Obligation
 		for _, ob := range all {
+			if len(claimRe) > 0 && supporting[ob.Kind] && claimedFuncs[funcOf(ob.Name)] {
+				kept = append(kept, ob)
+				continue
+			}
 			ok := len(plan.Kinds) == 0
 			for _, k := range plan.Kinds {
 				if k == ob.Kind {
@@ -378,7 +414,7 @@ func cmdCheck(args []string) int {
 				isUnclaimed = plan.Unclaimed[i].Reason
 			}
 		}
-		if !kindOK(a.kind) {
+		if !kindOK(a.kind) && !(len(claimRe) > 0 && supporting[a.kind] && claimedFuncs[funcOf(n)]) {
 			isUnclaimed = "obligation kind " + a.kind + " is not part of this property's claim"
 		}
 		if isUnclaimed != "" {
